@@ -2302,3 +2302,101 @@ Proof.
     { apply (ret_lower ms (ERel h :: B) w1 (1 + List.length A) t RN). simpl. exact RT. }
     unfold q. lia.
 Qed.
+
+(* ================= Part 5: the event model IS the closed-form contract (parallel APIs) ================= *)
+Definition core_contract (c0 : rcv) (ms : list member) (pre : bool) (evs : list ev) : result :=
+  match c0 with
+  | CUpTo k _ => upto_contract_ev k ms pre evs
+  | CFast _ => fast_contract_ev ms pre evs
+  | CRace => race_contract_ev ms pre evs
+  | CDone r => mkRes r [] 0 0 [] 0
+  end.
+
+Lemma optZ_cancel : forall (ms : list member) q t w,
+  (0 < List.length ms -> w_cancel w = Some (Nat.min q t)) ->
+  match List.length ms with O => (-1)%Z | _ => optZ (w_cancel w) end = cancel_spec ms (Nat.min q t).
+Proof.
+  intros ms q t w H. destruct ms as [|m u]; simpl; auto.
+  rewrite H by (simpl; lia). reflexivity.
+Qed.
+
+Theorem par_core_meets_contract : forall c0 ms (pre : bool) evs,
+  shape c0 (List.length ms) ->
+  perm_b (rel_order evs) (List.length ms) = true ->
+  npar evs + (if pre then 1 else 0) = 1 ->
+  par_result_ev ms (run_par_t c0 ms pre evs) = core_contract c0 ms pre evs.
+Proof.
+  intros c0 ms pre evs SH PB NP. unfold par_result_ev. rewrite run_par_t_world.
+  destruct (par_offered_closed_form c0 ms pre evs SH PB NP) as [[I _] AD]. cbv zeta in *.
+  pose proof (par_saw_closed_form c0 ms pre evs SH PB NP) as SW'.
+  destruct (par_time_closed_form c0 ms pre evs SH PB NP) as [t [RT [M KC]]].
+  set (W := run_w ms (start_w c0 ms pre) 1 evs) in *.
+  set (q := q_of c0 ms pre evs) in *.
+  assert (XR : (match w_cons W with CDone r => r | _ => RHang end) = trace_ret c0 (seq_at ms evs q)).
+  { rewrite (I AD). unfold trace_ret, fin. destruct (consume c0 (seq_at ms evs q)); reflexivity. }
+  unfold par_result. rewrite XR, RT, SW', (optZ_cancel ms q t W KC). simpl optZ.
+  destruct SH as [[k ->]|[->| ->]]; simpl core_contract; unfold q, q_of, r0_of in *.
+  - rewrite flip_upto in M. rewrite upto_trace_law, <- M. reflexivity.
+  - rewrite flip_fast in M. rewrite fast_trace_law.
+    unfold fast_contract_ev, early_contract_ev. cbv zeta.
+    destruct (find (fun r => negb (is_err r)) (seq_at ms evs _)) as [r|] eqn:F;
+      [rewrite M|rewrite <- M]; reflexivity.
+  - rewrite flip_race in M. rewrite race_trace_law.
+    unfold race_contract_ev, early_contract_ev. cbv zeta.
+    destruct (seq_at ms evs _) as [|r u] eqn:F; [rewrite <- M|rewrite M]; reflexivity.
+Qed.
+
+Lemma early_single : forall law ends r0 ms pre evs,
+  (forall tr, match law tr with RSingle _ _ _ => True | _ => False end) ->
+  match x_ret (early_contract_ev law ends r0 ms pre evs) with RSingle _ _ _ => True | _ => False end.
+Proof. intros. unfold early_contract_ev. simpl. apply H. Qed.
+
+Theorem par_meets_contract_ev : forall a ms (pre : bool) evs c0,
+  loop_of a (List.length ms) = Some c0 ->
+  perm_b (rel_order evs) (List.length ms) = true ->
+  npar evs + (if pre then 1 else 0) = 1 ->
+  exec_ev a ms pre evs = contract_ev a ms pre evs.
+Proof.
+  intros a ms pre evs c0 L PB NP.
+  pose proof (loop_of_shape a _ c0 L) as SH.
+  pose proof (par_core_meets_contract c0 ms pre evs SH PB NP) as C.
+  destruct a as [s|k| | |]; simpl in L; try discriminate.
+  - unfold exec_ev, contract_ev. cbv zeta.
+    destruct (s =? 2)%Z; [inversion L; subst; exact C|].
+    destruct (s =? 3)%Z; [inversion L; subst; exact C|].
+    destruct (s =? 4)%Z; [discriminate|].
+    destruct (s =? 5)%Z.
+    { inversion L; subst. simpl in C. rewrite C. apply place_placed.
+      apply early_single. apply fast_law_single. }
+    destruct (s =? 6)%Z.
+    { inversion L; subst. simpl in C. rewrite C. apply place_placed.
+      apply early_single. apply race_law_single. }
+    inversion L; subst. exact C.
+  - inversion L; subst. exact C.
+  - inversion L; subst. exact C.
+  - inversion L; subst. exact C.
+Qed.
+
+(* every API, ExecuteOne included *)
+Theorem exec_ev_meets_contract_ev : forall a ms (pre : bool) evs,
+  perm_b (rel_order evs) (List.length ms) = true ->
+  Nat.eqb (npar evs + (if pre then 1 else 0)) 1 = true ->
+  exec_ev a ms pre evs = contract_ev a ms pre evs.
+Proof.
+  intros a ms pre evs PB NP.
+  destruct (loop_of a (List.length ms)) as [c0|] eqn:L.
+  - apply (par_meets_contract_ev a ms pre evs c0 L PB). apply Nat.eqb_eq. exact NP.
+  - apply exec_ev_one_meets_contract; auto.
+    destruct a as [s|k| | |]; simpl in L; try discriminate; auto.
+    destruct (s =? 2)%Z; [discriminate|]. destruct (s =? 3)%Z; [discriminate|].
+    destruct (s =? 4)%Z eqn:E4; [apply Z.eqb_eq in E4; subst; auto|].
+    destruct (s =? 5)%Z; [discriminate|]. destruct (s =? 6)%Z; discriminate.
+Qed.
+
+Theorem pjudge_sound : forall a ms pre evs obs,
+  C17P_guard (KEv a ms pre evs obs) = true ->
+  pagrees (KEv a ms pre evs obs) = true -> C17P_ok (KEv a ms pre evs obs) = true.
+Proof.
+  intros a ms pre evs obs G H. simpl in *. apply andb_prop in G as [G1 G2].
+  rewrite <- (exec_ev_meets_contract_ev a ms pre evs G1 G2). exact H.
+Qed.
